@@ -194,7 +194,7 @@ def run(ctx):
     if ctx.tier == "quick":
         units = [(3, 0, ("all2",)), (2, 1, ("all2",)), (2, 0, ("distinct", "unit0", "unit1", "unit2"))]; cap = 64
     else:
-        units = [(3, 0, ("all2", "distinct", "unit0", "unit1", "unit2")), (2, 1, ("all2", "distinct", "unit0", "unit1")), (3, 1, ("all2",))]; cap = 729
+        units = [(3, 0, ("all2", "distinct", "unit0")), (2, 1, ("all2", "distinct")), (2, 0, ("unit0", "unit1", "unit2"))]; cap = 256
     items = []; seen = set()
     for lst in runner.pmap(gen_unit, units, chunksize=1):
         for j in lst:
